@@ -125,4 +125,17 @@ def jobs(tier):
                    E('vf_canary', 'canary_exit'))
     out.append(Job('bi_empty', NAME, 'empty', con, P, prelude=PRE, stubs=[(r'vf::VReader::operator\(\)', reader_stub)],
                    harness=H % '$ENTRY(&in);', expect_fail_canary=('canary_exit',), desc='buffer_input::empty()'))
+    # discard(): the buffer algebra only; memmove is replaced by "havoc the destination bytes" (which bytes end up where is libc's
+    # contract, not decided here), so the clauses are about pointers, counts and the position
+    con = Contract(R(pre, 'buffer-invariant'), Clause('assigns', 'self->m_current.data, self->m_end, __CPROVER_object_whole(BUF(self))'),
+                   E('BI_SHAPE(self) && BUF(self) == OLD(BUF(self)) && self->m_maximum == OLD(self->m_maximum)', 'DISCARD-KEEPS-THE-SHAPE-INVARIANT', ('C07', 'C03')),
+                   E('OFF(BCUR(self)) <= CHUNK', 'DISCARD-LEAVES-AT-MOST-CHUNK-BYTES-BEFORE-THE-CURSOR-SO-THAT-MAXIMUM-BYTES-OF-LOOK-AHEAD-FIT', P),
+                   E('OCC(self) == OCC_OLD(self)', 'DISCARD-KEEPS-THE-NUMBER-OF-UNCONSUMED-BYTES', P),
+                   E('self->m_current.byte == OLD(self->m_current.byte) && self->m_current.line == OLD(self->m_current.line) && self->m_current.column == OLD(self->m_current.column)', 'DISCARD-KEEPS-THE-POSITION', ('C07', 'C06')),
+                   E('vf_exc.pending == 0', 'DISCARD-NEVER-RAISES', P),
+                   E('vf_canary', 'canary_exit'))
+    out.append(Job('bi_discard', NAME, 'discard', con, P, stubs=[],
+                   prelude=PRE + 'static inline void* vf_memmove(void* d, const void* s, size_t n) { __CPROVER_assert(__CPROVER_r_ok(s, n) && __CPROVER_w_ok(d, n), "repo_assert memmove ranges inside their objects"); if (n) __CPROVER_havoc_slice(d, n); return d; }\n#define memmove vf_memmove\n',
+                   harness=H % '$ENTRY(&in);', expect_fail_canary=('canary_exit',), timeout=300,
+                   desc='buffer_input::discard(): after it at most Chunk bytes lie before the cursor; count of unconsumed bytes and position unchanged (memmove = havoc of the destination)'))
     return out
